@@ -46,20 +46,25 @@ RECURSIVE Iterate(_, _)
 Iterate(F, M) == LET Y == Step(F, M) IN IF Y = M THEN M ELSE Iterate(F, Y)
 LFP(F) == Iterate(F, [ v \in 1..F.n |-> Bot ])
 
-\* precondition (harness code, not the code under test): the tabulated transfer functions are monotone
-TablesMonotone(F) ==
-  \A v \in 1..F.n :
-    LET nd == F.nodes[v] IN
-    nd.kind = "table" =>
-      /\ Len(nd.table) = Pow7(Len(nd.ops))
-      /\ \A x, y \in 0..(Len(nd.table) - 1) :
-           (\A j \in 1..Len(nd.ops) : Leq(LName, (x \div Pow7(j - 1)) % 7, (y \div Pow7(j - 1)) % 7))
-             => Leq(LName, nd.table[x + 1], nd.table[y + 1])
+\* precondition (harness code, not the code under test): the tabulated transfer functions are
+\* monotone.  The distinct tables are listed once in the export and checked once, in the root state.
+Tables == JsonDeserialize("sparse_obs.json").tables
+TableMonotone(k, tb) ==
+  /\ Len(tb) = Pow7(k)
+  /\ \A x, y \in 0..(Len(tb) - 1) :
+       (\A j \in 1..k : Leq(LName, (x \div Pow7(j - 1)) % 7, (y \div Pow7(j - 1)) % 7))
+         => Leq(LName, tb[x + 1], tb[y + 1])
+TablesMonotone == (c = 0 /\ i = 0) => \A t \in 1..Len(Tables) : TableMonotone(Tables[t].k, Tables[t].table)
+KnownTables == { <<Tables[t].k, Tables[t].table>> : t \in 1..Len(Tables) }
 
 Report(kind, what) == PrintT("CASE " \o ToJson([ idx |-> i, name |-> Obs[i].name, kind |-> kind, what |-> what ]))
 
 ExportUsable ==
-  i > 0 => ( (Len(Obs[i].nodes) = Obs[i].n /\ TablesMonotone(Obs[i])) \/ (Report("unusable", <<>>) /\ FALSE) )
+  i > 0 => ( ( /\ Len(Obs[i].nodes) = Obs[i].n
+               /\ \A v \in 1..Obs[i].n :
+                    LET nd == Obs[i].nodes[v] IN
+                    nd.kind = "table" => <<Len(nd.ops), nd.table>> \in KnownTables )
+             \/ (Report("unusable", <<>>) /\ FALSE) )
 
 \* C13 (per-value solver): every run of the real solver ended with the least fixpoint
 ResultIsLFP ==
